@@ -34,12 +34,15 @@ def trimStart : Bytes → Bytes
   | 9 :: r => trimStart r
   | r => r
 
-/-- the Content-Type gate of `impl FromRequest for B: FromBody`: the header must name exactly the extractor's media type -/
+def lowerB (b : UInt8) : UInt8 := if 65 ≤ b && b ≤ 90 then b + 32 else b
+
+/-- the Content-Type gate of `impl FromRequest for B: FromBody`: the header must name exactly the extractor's media type — in any letter case
+    (type and subtype are case-insensitive, RFC 9110 8.3.1) -/
 def gate (mime : Bytes) (contentType : Option Bytes) (payload : Option Bytes) (decode : Bytes → Option Bytes) : Found :=
   match contentType with
   | none => .absent
   | some ct =>
-    if !mime.isPrefixOf ct then .absent else
+    if !((ct.take mime.length).map lowerB == mime.map lowerB) then .absent else
     let rest := trimStart (ct.drop mime.length)
     if !(rest.isEmpty || rest.head? == some 59) then .absent else
     match payload with
